@@ -45,7 +45,7 @@ ASSUMPTIONS = [
 ]
 REAL = ["Task.__call__ / Arguments.from_call", "BaseOrchestrator.route_call", "Mem/SQLite get_existing_invocations + argument index", "client data store (externalised arguments)", "brokers"]
 STUBBED = ["clock", "uuid4", "history writer threads run inline"]
-PROBES = ["collapsed", "new_after_key_freed", "rejected_different_args", "reused_with_different_args", "externalised_argument", "disabled_always_new"]
+PROBES = ["collapsed", "new_after_key_freed", "rejected_different_args", "reused_with_different_args", "externalised_argument", "disabled_always_new", "moved_to_requeued_status"]
 
 BIG = "L" * 300
 
@@ -179,9 +179,14 @@ def run(seed: int, params: dict, replay: dict | None = None) -> dict:
             else:
                 i = rng.randrange(len(minv))
                 m = minv[i]
-                nxt = {"REGISTERED": "PENDING", "PENDING": "RUNNING", "RUNNING": "SUCCESS"}.get(m["status"])
-                if nxt is None:
+                # the invocation leaves REGISTERED and moves on along legal edges, including the available statuses
+                # RETRY and REROUTED (re-queued work is not "still REGISTERED": a new submission must not collapse onto it)
+                opts_ = {"REGISTERED": ["PENDING"], "PENDING": ["RUNNING", "RUNNING", "KILLED"], "RUNNING": ["SUCCESS", "SUCCESS", "RETRY", "KILLED", "FAILED"], "KILLED": ["REROUTED"], "RETRY": ["PENDING"], "REROUTED": ["PENDING"]}.get(m["status"])
+                if not opts_:
                     continue
+                nxt = rng.choice(opts_)
+                if nxt in ("RETRY", "REROUTED"):
+                    stats["probe.moved_to_requeued_status"] = stats.get("probe.moved_to_requeued_status", 0) + 1
                 for st, app in env.apps.items():
                     app.orchestrator.set_invocation_status(m["ids"][st], InvocationStatus[nxt], ctx)
                 if m["status"] == "REGISTERED":
